@@ -406,7 +406,7 @@ theorem genericSuffixes_length (l : List (Option Str)) : ∀ i, (genericSuffixes
   | nil => intro _; rfl
   | cons a l ih => intro i; cases a <;> simp [genericSuffixes, ih]
 
-theorem original_wrap (sc : Scope) (f : Fn) : (original sc f).wrap = sc.w0 := by
+theorem original_wrap (sc : Scope) (f : Fn) : (original sc f).wrap = f.w0 sc := by
   unfold original; repeat' split
   all_goals rfl
 theorem original_hasBuf (sc : Scope) (f : Fn) : (original sc f).hasBuf = f.hasBuf := by
